@@ -47,6 +47,29 @@ use std::num::NonZeroUsize;
 #[verifier::external_body] pub struct Node { }
 #[verifier::external_body] pub fn __abs_f64() -> f64 { unimplemented!() }
 #[verifier::external_body] pub fn __abs_stop() -> bool { unimplemented!() }
+// the two infoset tables of a pass, as opaque role tokens: the updating ("active") player's and the
+// sampled ("external") player's; thread_threshold follows the SAMPLED player's draws, the traversal
+// enumerates the active player's actions and samples the external player's
+#[derive(Clone, Copy, PartialEq, Eq, Structural)]
+pub enum __Role { Active, External }
+#[verifier::external_body]
+pub fn __abs_thread_threshold_ext(sampled: __Role, queue: &mut Vec<Item>, work: &mut Vec<Item>)
+    requires sampled == __Role::External, old(queue)@.len() == 0, old(work)@.len() == 0,
+{ unimplemented!() }
+// only the UPDATING player's infosets are advanced (regret matching / discounting) after its pass
+#[verifier::external_body]
+pub fn __abs_advance(who: __Role) -> (r: f64)
+    requires who == __Role::Active,
+{ unimplemented!() }
+#[verifier::external_body]
+pub fn __abs_roles(active: __Role, external: __Role)
+    requires active == __Role::Active, external == __Role::External,
+{ unimplemented!() }
+// ghost flag: the cached chance draws of this pass have been reset ("a fresh draw is made for the
+// next pass"); set only by the abstracted `chance_infosets.iter_mut().for_each(.. advance())`
+pub struct Draws { pub rearmed: Ghost<bool> }
+#[verifier::external_body] pub fn __draws_of_this_pass() -> (d: Draws) ensures !d.rearmed@ { unimplemented!() }
+#[verifier::external_body] pub fn __abs_rearm_chance_draws(d: &mut Draws) ensures final(d).rearmed@ { unimplemented!() }
 #[verifier::external_body] pub struct Tgt { }
 impl Tgt { #[verifier::external_body] pub fn get(&self) -> usize { unimplemented!() } }
 
@@ -86,19 +109,22 @@ pub fn single_player_iter<'a, const FIRST: bool>(
     ensures
         final(work).fresh(), // @ob C07.V.single_player_iter.workspace_fresh
 {
-    
+let mut __draws = __draws_of_this_pass();
+
+    let active_player_infosets = __Role::Active; let external_player_infosets = __Role::External;
     // compute threashold of `target` nodes for efficient multi threading
-    __abs_thread_threshold(&mut work.queue, &mut work.work); // @ob C07.V.workspace_fresh.frontier
+    __abs_thread_threshold_ext(external_player_infosets, &mut work.queue, &mut work.work); // @ob C07.V.single_player_iter.frontier_follows_sampled_player
     // send threshold to threads for computation
-    __abs_par_drain_into(&mut work.payoffs, &mut work.queue); // @ob C07.V.workspace_fresh.payoff_cache
+    __abs_roles(active_player_infosets, external_player_infosets); __abs_par_drain_into(&mut work.payoffs, &mut work.queue); // @ob C07.V.workspace_fresh.payoff_cache
     // now actually recurse, having cached results from threaded computation
-    
+    __abs_roles(active_player_infosets, external_player_infosets); // @ob C07.V.single_player_iter.traversal_roles
 
     // update all infosets
     work.work.clear();
     work.payoffs.clear();
-    
-    __abs_f64()
+    __abs_rearm_chance_draws(&mut __draws);
+    { proof { assert(__draws.rearmed@); } // @ob C10.V.single_player_iter.fresh_draw_next_pass
+ __abs_advance(active_player_infosets) }
 }
 
 // the contract just proved for single_player_iter, used modularly at its two call sites
